@@ -191,6 +191,34 @@ pub fn canon(i: Id) -> (bool, u32) {
 }
 pub fn ac_equal(a: Id, b: Id) -> bool { a == b || canon(a) == canon(b) }
 
+// ---- commutative-only canonical form: the operands of each binary + and * are ordered, nothing is re-associated and no
+// sign is moved. IEEE 754 addition and multiplication are commutative bit for bit (NaN payloads aside), so two terms
+// with the same commutative-canonical form give bit-identical floating point results: a sound argument for the
+// "exactly the same colour" clauses (variant agreement), unlike the real-arithmetic form above.
+#[derive(Default)]
+struct Comm { index: HashMap<(u8, u32, u32, u32), u32>, memo: HashMap<Id, u32>, next: u32 }
+thread_local! { static COMM: RefCell<Comm> = RefCell::new(Comm::default()); }
+pub fn comm_canon(i: Id) -> u32 {
+    if let Some(r) = COMM.with(|c| c.borrow().memo.get(&i).cloned()) { return r; }
+    use Node::*;
+    let key: (u8, u32, u32, u32) = match node(i) {
+        Add(a, b) => { let (x, y) = (comm_canon(a), comm_canon(b)); (1, x.min(y), x.max(y), 0) }
+        Mul(a, b) => { let (x, y) = (comm_canon(a), comm_canon(b)); (2, x.min(y), x.max(y), 0) }
+        Sub(a, b) => (3, comm_canon(a), comm_canon(b), 0),
+        Div(a, b) => (4, comm_canon(a), comm_canon(b), 0),
+        Neg(a) => (5, comm_canon(a), 0, 0),
+        Ite(c, a, b) => (6, comm_canon(c), comm_canon(a), comm_canon(b)),
+        // every other node (leaves, functions, comparisons): itself, with canonical children only through the cases above
+        _ => (0, i, 0, 0),
+    };
+    let r = COMM.with(|c| { let mut c = c.borrow_mut(); if let Some(v) = c.index.get(&key) { return *v; } let v = c.next; c.next += 1; c.index.insert(key, v); v });
+    COMM.with(|c| c.borrow_mut().memo.insert(i, r));
+    r
+}
+pub fn comm_equal(a: Id, b: Id) -> bool { a == b || comm_canon(a) == comm_canon(b) }
+pub fn comm_reset() { COMM.with(|c| *c.borrow_mut() = Comm::default()); }
+
+
 /// Decide a comparison in scalar mode: constants are evaluated, everything else follows the script
 /// (default: true) and is recorded in the trace as part of the path condition.
 pub fn decide(cond: Id) -> bool {
@@ -275,7 +303,7 @@ pub fn reset_run(script: Vec<bool>) {
         a.ensures.clear(); a.outputs.clear(); a.identical.clear(); a.fresh = 0;
     })
 }
-pub fn reset_all() { with(|a| { *a = Arena::default(); }); canon_reset(); }
+pub fn reset_all() { with(|a| { *a = Arena::default(); }); canon_reset(); comm_reset(); }
 
 fn esc(s: &str) -> String { s.replace('\\', "\\\\").replace('"', "\\\"") }
 
